@@ -37,6 +37,8 @@ var (
 	ModuleAddress = authtypes.NewModuleAddress(ModuleName)
 
 	DustCollectorName = fmt.Sprintf("%s/%s", ModuleName, "dust_collector")
+
+	DustCollectorAddress = authtypes.NewModuleAddress(DustCollectorName)
 )
 
 // ====================================================================================================
